@@ -67,11 +67,12 @@ def shuffled_helper(chk, ctx, rule):
     if fi is None:
         raise AnalysisError('utilities.shuffled vanished')
     ok = False
+    ok = Every()
     for p in ctx.paths(fi):
         if p.returned:
             r = unversion(p.outcome[1])
             calls = [unversion(c.term) for c in p.calls() if c.value == ('name', 'shuffle')]
-            ok = r == T.spec('list(values)') and calls == [('call', 'shuffle', (r,), ())]
+            ok.see(r == T.spec('list(values)') and calls == [('call', 'shuffle', (r,), ())])
     chk.ob(rule, 'utilities.shuffled', ok, fi.loc, 'shuffled() returns a shuffled copy with exactly the given elements (a permutation: nothing added or dropped)')
 
 
@@ -80,11 +81,12 @@ def rotated_helper(chk, ctx, rule):
     if fi is None:
         raise AnalysisError('utilities.rotated vanished')
     ok = False
+    ok = Every()
     for p in ctx.paths(fi):
         if p.returned:
             r = unversion(p.outcome[1])
             rot = [unversion(c.term) for c in p.calls() if c.term[0] == 'mcall' and c.term[2] == 'rotate']
-            ok = r == T.spec('deque(values)') and rot == [('mcall', r, 'rotate', (('name', 'count'),), ())]
+            ok.see(r == T.spec('deque(values)') and rot == [('mcall', r, 'rotate', (('name', 'count'),), ())])
     chk.ob(rule, 'utilities.rotated', ok, fi.loc, 'rotated(values, n) is the same elements rotated by n')
 
 
@@ -138,12 +140,13 @@ def rotated_helper(chk, ctx, rule) -> None:
     from ..paths import unversion
     fi = ctx.prog.func('utilities.rotated')
     ok = False
+    ok = Every()
     for p in ctx.paths(fi):
         if not p.returned:
             continue
         r = unversion(p.outcome[1])
         rot = [e for e in p.events if e.kind == 'call' and e.term[0] == 'mcall' and e.term[2] == 'rotate']
-        ok = r == T.spec('deque(values)') and len(rot) == 1 and unversion(rot[0].term[1]) == r and rot[0].term[3] == (('name', 'count'),)
+        ok.see(r == T.spec('deque(values)') and len(rot) == 1 and unversion(rot[0].term[1]) == r and rot[0].term[3] == (('name', 'count'),))
     chk.ob(rule, 'utilities.rotated', ok, fi.loc, 'rotated(values, n) returns deque(values) rotated by exactly n (seat order starts after the button)')
 
 
